@@ -32,6 +32,29 @@ def run(chk):
                           % (' '.join(t[1:])[:200], ' '.join(m.split()[1:])[:200], '' if bases == sorted(set(bases)) else ' (offsets not strictly increasing)'), dict(case=c, got=i[:600]))
         classes.add(('cinfo', c.split()[2], min(len(c.split()[4]) // 8, 4), i.split()[2][:4] if len(i.split()) > 2 else ''))
     n += len(dcases)
+    # one segment of more than 65536 characters (ordinary text): associations are character INDICES, whatever the length of the text
+    from props import shapegen as _S
+    w = engine.build(chk)
+    lcases = []
+    for k, (font, nch) in enumerate((('Padauk.ttf', 65537), ('charis_r_gr.ttf', 70000)) if chk.tier != 'thorough' else
+                                     (('Padauk.ttf', 65536), ('Padauk.ttf', 65537), ('charis_r_gr.ttf', 70000), ('Scheherazadegr.ttf', 66000), ('charis_r_gr.ttf', 131073))):
+        lines = [l for l in _S.seeds(vlib.REPO, font)[1] if l] or [[0x61, 0x20]]
+        cps = []
+        while len(cps) < nch:
+            cps += chk.rng.choice(lines) + [0x20]
+        enc = (32, 16, 8)[k % 3]
+        lcases.append(_S.case_line('long%d' % k, font, _S.encode(cps[:nch], enc), enc, dir_=1 if font.startswith('Scheh') else 0))
+    _, lil, _ = vlib.run_pair(None, w, lcases, shards=len(lcases), timeout=1200)
+    for c, i in zip(lcases, lil):
+        head = ' '.join(c.split()[:8])
+        if i is None:
+            chk.tie_break('harness', 'no result line', head); continue
+        m_ = [t for t in i.split()[:12] if t.startswith('WF=')]
+        if 'ABORT' in i.split()[1:3] or not m_ or m_[0] != 'WF=ok':
+            chk.violation('c05:long:%s' % ' '.join(c.split()[2:8]), 'a segment of %s characters: %s' % ([t for t in i.split()[:8] if t.startswith('nc=')], ' '.join(i.split()[1:8])[:200]),
+                          dict(case=c, got=i[:300]))
+        classes.add(('long', c.split()[2], m_[0] if m_ else 'none'))
+    n += len(lcases)
     chk.notes.append('adversarial rule-action programs: %d cases, %d accepted programs executed' % (nv, ran))
     chk.cov.update(evaluations=n, distinct_nontrivial=len(classes), disagreements_checked=ndis, distribution=dist,
                    rule='%d texts per shipped font (16 fonts): repertoire windows, spaces / joiners, unmapped and astral characters, ill-formed units, three encodings, dir 0..7, '
